@@ -334,23 +334,63 @@ func (*TreeNode).Add returns (res)
   requires @child child != nil && !(child in tnodes) && child.Children != nil && len(child.Children) == 0 && child != tn
   requires @own-map forall n *TreeNode :: {n in tnodes} n in tnodes ==> n.Children != child.Children
   modifies mapof(tn.Children), heap(TreeNode)
-  modifies ghost(tnodes, tdepth, tmax, tmapOf, jlen)
-  ensures @tree TreeInv() && res != nil && res in tnodes && tdepth[res] == tdepth[tn] + 1 && res == mapget(tn.Children, child.Name) && child.Name in tn.Children
-  ensures @new-or-merged [C03] (old(child.Name in tn.Children) ==> res == old(mapget(tn.Children, child.Name)) && res.Total == old(mapget(tn.Children, child.Name).Total) + child.Total) && (!old(child.Name in tn.Children) ==> res == child && res.Total == old(child.Total))
+  let CN := child.Name
+  modifies ghost(tnodes, tdepth, tmax, tmapOf)
+  ensures @tree TreeInv() && res != nil && res in tnodes && tdepth[res] == tdepth[tn] + 1 && res == mapget(tn.Children, CN) && CN in tn.Children
+  ensures @new-or-merged [C03] (old(CN in tn.Children) ==> res == old(mapget(tn.Children, CN)) && res.Total == old(mapget(tn.Children, CN).Total) + old(child.Total)) && (!old(CN in tn.Children) ==> res == child && res.Total == old(child.Total))
   ensures @nodes-kept forall n *TreeNode :: {n in tnodes} old(n in tnodes) ==> n in tnodes
+  // nothing else changes: every other node keeps its name, total and children; the node itself keeps name and children
+  ensures @others [C03] forall n *TreeNode :: {n in tnodes} {cellat(TreeNode, n)} old(n in tnodes) && n != res ==> n.Total == old(n.Total) && n.Name == old(n.Name) && n.Children == old(n.Children)
+  ensures @merged-keeps-shape [C03] old(CN in tn.Children) ==> res.Name == old(res.Name) && res.Children == old(res.Children)
+  ensures @other-keys [C03] forall k string :: {mapget(tn.Children, k)} k != CN ==> (k in tn.Children) == old(k in tn.Children) && mapget(tn.Children, k) == old(mapget(tn.Children, k))
+  ensures @only-new [C03] forall n *TreeNode :: {n in tnodes} n in tnodes && !old(n in tnodes) ==> n == child
+  ensures @ghosts (old(CN in tn.Children) ==> tnodes == old(tnodes) && tdepth == old(tdepth)) && (!old(CN in tn.Children) ==> tnodes == store(old(tnodes), child, true) && tdepth == store(old(tdepth), child, old(tdepth[tn]) + 1))
+  ensures @child-maps [C03] forall n *TreeNode :: {n in tnodes} {cellat(TreeNode, n)} old(n in tnodes) && n != tn ==> mapval(n.Children) == old(mapval(n.Children))
   ghost after mapupdate 1 { set tnodes := store(tnodes, child, true); set tmapOf := store(tmapOf, child.Children, child); set tdepth := store(tdepth, child, tdepth[tn] + 1); set tmax := if tdepth[tn] + 1 > tmax then tdepth[tn] + 1 else tmax }
 
-// AddDeep: one node per path segment, each under the previous one
+// AddDeep: the value is added to every prefix node of the split name (C03): the nodes tv[1..tvLen] visited form the
+// chain root -> child named by segment 1 -> child named by segment 2 ..., one per segment; each of them has grown
+// by el.Value (a missing one is created with that total); no other node changes. Ghosts: tseg = the segments,
+// tv = the chain (tv[0] is the receiver), tvSet = the set of the visited nodes.
+ghost tvLen int
+ghost tv    seq[int]
+ghost tseg  seq[string]
+ghost tvSet set[int]
 func (*TreeNode).AddDeep
   props C03 C08
   requires @tree TreeInv() && tn in tnodes
   modifies heap(TreeNode), maps(string, *TreeNode)
-  modifies ghost(tnodes, tdepth, tmax, tmapOf, jlen)
+  modifies ghost(tnodes, tdepth, tmax, tmapOf, jlen, tvLen, tv, tseg, tvSet)
   ensures @tree TreeInv() && tn in tnodes
   ensures @nodes-kept forall n *TreeNode :: {n in tnodes} old(n in tnodes) ==> n in tnodes
+  ensures @chain [C03] tvLen >= 0 && tv[0] == tn && (forall d int :: {tv[d]} 1 <= d && d <= tvLen ==> tv[d] in tnodes && tv[d] in tvSet && tdepth[tv[d]] == tdepth[tn] + d && tseg[d - 1] in ptr(TreeNode, tv[d - 1]).Children && tv[d] == mapget(ptr(TreeNode, tv[d - 1]).Children, tseg[d - 1]) && ptr(TreeNode, tv[d]).Name == tseg[d - 1])
+  ensures @visited-exactly [C03] forall n *TreeNode :: {n in tvSet} n in tvSet ==> n in tnodes && tdepth[tn] < tdepth[n] && tdepth[n] <= tdepth[tn] + tvLen && tv[tdepth[n] - tdepth[tn]] == n
+  ensures @adds-along-the-path [C03] forall n *TreeNode :: {n in tvSet} old(n in tnodes) ==> n.Total == old(n.Total) + (if n in tvSet then el.Value else 0.0)
+  ensures @creates-missing [C03] forall n *TreeNode :: {n in tnodes} n in tnodes && !old(n in tnodes) ==> n in tvSet && n.Total == el.Value
+  ghost at entry { set tvLen := 0; set tv := store(tv, 0, tn); set tvSet := fconst(tvSet, false) }
   loop 1 {
-    invariant @tree TreeInv() && parent in tnodes && tn == old(tn) && tn in tnodes
+    pre { set tseg := elems(names) }
+    invariant @tree TreeInv() && parent in tnodes && tn == old(tn) && tn in tnodes && el == old(el)
+    invariant @segs elems(names) == tseg
+    invariant @len tvLen == #i && tv[0] == tn
+    invariant @cur tv[#i] == parent
+    invariant @depth tdepth[parent] == tdepth[tn] + #i
     invariant @nodes-kept forall n *TreeNode :: {n in tnodes} old(n in tnodes) ==> n in tnodes
+    invariant @chain-nodes forall d int :: {tv[d]} 0 <= d && d <= #i ==> tv[d] in tnodes && tdepth[tv[d]] == tdepth[tn] + d && (d >= 1 ==> tv[d] in tvSet)
+    invariant @chain-links forall d int :: {tv[d]} 1 <= d && d <= #i ==> tseg[d - 1] in ptr(TreeNode, tv[d - 1]).Children && tv[d] == mapget(ptr(TreeNode, tv[d - 1]).Children, tseg[d - 1])
+    invariant @chain-names forall d int :: {tv[d]} 1 <= d && d <= #i ==> ptr(TreeNode, tv[d]).Name == tseg[d - 1]
+    invariant @visited-exactly forall n *TreeNode :: {n in tvSet} n in tvSet ==> n in tnodes && tdepth[tn] < tdepth[n] && tdepth[n] <= tdepth[tn] + #i && tv[tdepth[n] - tdepth[tn]] == n
+    invariant @adds forall n *TreeNode :: {n in tvSet} old(n in tnodes) ==> n.Total == old(n.Total) + (if n in tvSet then el.Value else 0.0)
+    invariant @creates forall n *TreeNode :: {n in tnodes} n in tnodes && !old(n in tnodes) ==> n in tvSet && n.Total == el.Value
+  }
+  ghost after call 1 Add {
+    assert @not-yet-visited !(mapget(parent.Children, name) in tvSet)
+    assert @earlier-nodes-differ forall d int :: {tv[d]} 0 <= d && d < tvLen ==> tv[d] != parent && tv[d] != mapget(parent.Children, name)
+    assert @maps-of-the-chain-kept forall d int :: {tv[d]} 0 <= d && d < tvLen ==> ptr(TreeNode, tv[d]).Children == at(call, ptr(TreeNode, tv[d]).Children) && mapval(ptr(TreeNode, tv[d]).Children) == at(call, mapval(ptr(TreeNode, tv[d]).Children))
+    assert @other-totals-kept forall n *TreeNode :: {n in tvSet} old(n in tnodes) && n != mapget(parent.Children, name) ==> n.Total == at(call, n.Total)
+    let R := mapget(parent.Children, name)
+    assert @merged-total at(call, R in tnodes) ==> R.Total == at(call, R.Total) + el.Value
+    set tvLen := tvLen + 1; set tv := store(tv, tvLen, mapget(parent.Children, name)); set tvSet := store(tvSet, tv[tvLen], true)
   }
 
 // Keys: the children's names, strictly sorted (so siblings are shown in a fixed order, C03 / C05)
